@@ -41,6 +41,8 @@ def run(chk):
     S.check_toplevel_kinds(chk, lib, 'R16.2')
     S.check_three_point(chk, lib, 'R16.2')
     S.check_hermite(chk, lib, 'R16.3', 'R16.3', 'R16.3')
+    chk.rule('R16.4', "lanes holding different polynomials: with per-lane (Individual) boundaries every lane is solved with its OWN boundary element (dispatcher rules shared with C08)")
+    S.check_dispatcher(chk, lib, 'R16.4')
     # extrapolated evaluation is the same expression (C06) - restated here for the spline
     base = run_spline(lib, 'Yes', 'inside')
     for rel in ('below', 'above'):
